@@ -224,9 +224,9 @@ def escapeAux : Nat → Bytes → Bytes
     else
       let (r, w) := Utf8.decodeRune (c :: rest)
       if r = Utf8.runeError && w = 1 then
-        b "\\ufffd" ++ escapeAux fuel rest
-      else if r = 0x2028 then b "\\u2028" ++ escapeAux fuel ((c :: rest).drop w)
-      else if r = 0x2029 then b "\\u2029" ++ escapeAux fuel ((c :: rest).drop w)
+        [0x5C, 0x75, 0x66, 0x66, 0x66, 0x64] ++ escapeAux fuel rest
+      else if r = 0x2028 then [0x5C, 0x75, 0x32, 0x30, 0x32, 0x38] ++ escapeAux fuel ((c :: rest).drop w)
+      else if r = 0x2029 then [0x5C, 0x75, 0x32, 0x30, 0x32, 0x39] ++ escapeAux fuel ((c :: rest).drop w)
       else (c :: rest).take w ++ escapeAux fuel ((c :: rest).drop w)
 
 def escape (s : Bytes) : Bytes := escapeAux s.length s
